@@ -1507,4 +1507,20 @@ theorem decideReplenish_total_le {h : Host} {pool : Bool} {cid : Nat} {accounts 
   rejall
   omega
 
+theorem decideReplenish_vals {h : Host} {pool : Bool} {cid : Nat} {accounts : List Nat} {target : Nat} {chal : Sig}
+    {second : Option Sig} (hne : (decideReplenish h pool cid accounts target chal second).eff ≠ .none) :
+    (decideReplenish h pool cid accounts target chal second).out.vals =
+      (replenishDeposits (if pool then poolBal h.pools else h.accounts) target accounts).map (·.2) := by
+  obtain ⟨cs, b', rsig, hc, hr, hs, hdup, hv, hb, hv2, ha, he⟩ := decideReplenish_eff rfl hne
+  have hle := decideReplenish_total_le rfl hne
+  subst hs
+  have hvalid : replenishValid cid accounts target chal = true := by
+    by_cases hx : replenishValid cid accounts target chal = true
+    · exact hx
+    · exfalso; apply hne; simp [decideReplenish, hx, reject]
+  have hnz : ¬ depositTotal (replenishDeposits (if pool then poolBal h.pools else h.accounts) target accounts) = 0 := by
+    intro hz; apply hne; simp [decideReplenish, hvalid, hdup, lockForRevision, hc, hr, hv, hz]
+  have hle' : ¬ maxCurrency < depositTotal (replenishDeposits (if pool then poolBal h.pools else h.accounts) target accounts) := by omega
+  simp [decideReplenish, hvalid, hdup, lockForRevision, hc, hr, hv, hnz, hle', hb, hv2, ha]
+
 end Verif.Rhp
